@@ -182,4 +182,29 @@ theorem C12_readas_mapped_iff (fnm : String → String → Bool) (split : String
 theorem C12_readas_absent (fnm : String → String → Bool) (split : String → Option (String × String)) (name : String) :
     Plumb.makeFileTypeMap split none = some [] ∧ Plumb.mapped fnm [] name = false := ⟨rfl, rfl⟩
 
+/-! ### option tables of `fieldcompare dir` (harness/fcv/tables/cli_options.py, regenerated from the source) -/
+
+/-- every key with which directory mode (`_run`, `_categorize_files`, `_do_file_comparisons`,
+    `_add_unhandled_comparisons`) reads the argument dict is a destination its `_add_arguments` declares — a key
+    that is not a destination would, read with `args.get`, silently be `None`. -/
+theorem C12_options_reads_declared : Plumb.allDeclared Gen.optDirDests Gen.optDirReads = true := by decide
+
+/-- “the file comparison with the same options”: every `FileComparisonOptions` field that directory mode feeds is
+    fed from the SAME destination as in file mode … -/
+theorem C12_options_same_sources : Plumb.sameSources Gen.optDirWiring Gen.optFileWiring = true := by decide
+
+/-- … which is the one the model expects; directory mode feeds every field but `force_sequence_comparison` (the
+    switch is declared and ignored there: it only changes the report, the comparison fails either way). -/
+theorem C12_options_wiring :
+    (Gen.optDirWiring.all fun e => Plumb.expectedWiring.lookup e.1 == e.2.head? && e.2.length == 1) = true ∧
+    (Gen.optFields.all fun f => f == "force_sequence_comparison" || (Gen.optDirWiring.lookup f).isSome) = true := by
+  decide
+
+/-- every destination of directory mode other than that one is read somewhere (no further option is silently
+    ignored), and the Boolean switches reach their fields as they are. -/
+theorem C12_options_all_read :
+    (Gen.optDirDests.all fun d => d == "force_sequence_comparison" || Gen.optDirReads.contains d) = true ∧
+    (Gen.optDirWiring.all fun e =>
+      !(e.2.all Gen.optDirStoreTrue.contains) || Gen.optDirWiringKind.lookup e.1 == some "direct") = true := by decide
+
 end Fc
